@@ -74,13 +74,7 @@ struct SstRest { _p: u8 }
 // only the field SstCursor touches directly (`Arc<Vec<_>>` in the repository; `.len()` / indexing read through it)
 struct Sst { index_entries: Vec<SstIndexEntry>, rest: SstRest }
 
-// concatenation of the first k blocks
-spec fn flat(bs: Seq<Seq<Ent>>, k: int) -> Seq<Ent>
-    decreases k
-{
-    if k <= 0 { Seq::<Ent>::empty() } else { flat(bs, k - 1) + bs[k - 1] }
-}
-spec fn off(bs: Seq<Seq<Ent>>, k: int) -> int { flat(bs, k).len() as int }
+//@ include flat.inc.rs
 
 impl Sst {
     uninterp spec fn blocks(&self) -> Seq<Seq<Ent>>;
@@ -95,36 +89,6 @@ impl Sst {
         &&& forall|i: int, j: int| 0 <= i && i + 1 < bs.len() && 0 <= j < bs[i + 1].len() ==> lex_lt(self.div(i), #[trigger] bs[i + 1][j].key)
     }
 }
-
-proof fn lemma_flat_index(bs: Seq<Seq<Ent>>, k: int, i: int, j: int)
-    requires 0 <= i < k <= bs.len(), 0 <= j < bs[i].len()
-    ensures off(bs, i) + j < off(bs, k), flat(bs, k)[off(bs, i) + j] == bs[i][j], off(bs, i) >= 0,
-    decreases k
-{
-    if i < k - 1 { lemma_flat_index(bs, k - 1, i, j); }
-    lemma_off_mono(bs, 0, i);
-}
-proof fn lemma_off_mono(bs: Seq<Seq<Ent>>, a: int, b: int)
-    requires 0 <= a <= b <= bs.len()
-    ensures off(bs, a) <= off(bs, b), off(bs, 0) == 0,
-        flat(bs, a) =~= flat(bs, b).subrange(0, off(bs, a)),
-    decreases b - a
-{
-    if a < b { lemma_off_mono(bs, a, b - 1); }
-}
-// every global index belongs to exactly one (block, inner) pair
-proof fn lemma_flat_locate(bs: Seq<Seq<Ent>>, k: int, g: int) -> (ij: (int, int))
-    requires 0 <= k <= bs.len(), 0 <= g < off(bs, k)
-    ensures 0 <= ij.0 < k, 0 <= ij.1 < bs[ij.0].len(), off(bs, ij.0) + ij.1 == g, flat(bs, k)[g] == bs[ij.0][ij.1],
-    decreases k
-{
-    if g >= off(bs, k - 1) { (k - 1, g - off(bs, k - 1)) }
-    else {
-        let r = lemma_flat_locate(bs, k - 1, g);
-        r
-    }
-}
-
 
 // the concatenation of the blocks is sorted (this is where divider_i sits between block i and block i+1)
 proof fn lemma_block_order(t: &Sst, i1: int, j1: int, i2: int, j2: int)
@@ -305,7 +269,7 @@ impl Cursor for SstCursor {
 //@ before `idx += 1;` <<
             proof { assert(block_below(&self.table, r0, key@)); }
 //@ >>
-//@ before `self.meta_idx = idx;` <<
+//@ before `self.block_cursor = Some(block_cursor);` <<
         proof {
             let bi = idx as int;
             assert(sorted(self.bs()[bi]));
